@@ -501,6 +501,9 @@ static void runLayout(vh::Rng &r, const std::vector<int> &parent, int dirIdx, in
         case 1: w = 10 + 2 * r.range(0, 15); h = 10 + 2 * r.range(0, 15); break;
         case 2: { double a = 2 * r.range(1, 8), b = 2 * r.range(10, 100); if (r.coin()) std::swap(a, b);
                   if (r.coin(1, 4)) b = a; w = a; h = b; break; }
+        case 4: { // tall-root witness: the root is 100 long along the growth direction, everything else 10x10
+                  bool vert = (dirIdx & 1) == 0;   // dirs[] = N, E, S, W
+                  w = h = 10; if (i == 0) { if (vert) h = 100; else w = 100; } break; }
         default: w = r.range(1, 200) / 4.0; h = r.range(1, 200) / 4.0; break;
         }
         maxDim = std::max(maxDim, std::max(w, h));
@@ -527,6 +530,7 @@ static void runLayout(vh::Rng &r, const std::vector<int> &parent, int dirIdx, in
         if (pk == 0) { nodeSep = 10; rankSep = 50; }
         else if (pk == 1) { double iel = G->getIEL(); nodeSep = dy(iel / 4, 8); rankSep = std::max(dy(iel, 8), maxDim); }
         else { nodeSep = (double) r.range(1, 40) / 2.0; rankSep = maxDim + (double) r.range(0, 120) / 2.0; }
+    } else if (sepMode == 2) { nodeSep = 5; rankSep = 20;
     } else {
         int pk = (int) r.range(0, 3);
         nodeSep = pk == 0 ? 0 : (double) r.range(0, 160) / 8.0;
@@ -771,6 +775,22 @@ int main(int argc, char **argv) {
             vh::beginCase(k, "layoutx-quirk-witness");
             printf("kind layout\n");
             runLayout(r, parent, d, 0);
+            vh::endCase();
+        }
+    }
+    // fixed witness of the known finding C14-tree-rank-distance (Props/C19Layout.lean
+    // `tall_root_overlaps_child`): root 10x100 (along the growth direction), one 10x10 child, nodeSep 5,
+    // rankSep 20: the child's box lies inside the root's box. The driver only ties these cases exactly (the
+    // extent hypothesis is off) and counts the overlap.
+    {
+        static const int tall[2] = {-1, 0};
+        for (int d = 0; d < 4; ++d, ++k) {
+            if (!a.want(k)) continue;
+            vh::Rng r = vh::caseRng(a.seed, k);
+            std::vector<int> parent(tall, tall + 2);
+            vh::beginCase(k, "layoutx-tallroot-witness");
+            printf("kind layout\n");
+            runLayout(r, parent, d, 4, 2);
             vh::endCase();
         }
     }
